@@ -1,8 +1,95 @@
 import NetaddrVerif.Model.Proto
-/-! Driver ops of property C15 (stub: filled in by the property's model). -/
-namespace NV.Driver.C15
-open NV NV.Proto
+import NetaddrVerif.Model.Codec
+import NetaddrVerif.Driver.C08
+/-! Driver ops of property C15 (binary / bit / word / DNS / base-85 encodings).
 
-def handle (_op : String) (_args : List String) : Option String := none
+Family token: `4`, `6`, `48:<dialect>`, `64:<dialect>` (dialect token as in Driver/C08) or
+`G:<word_size>:<num_words>:<hex of sep>` for the generic codecs of netaddr.strategy.
+Errors are printed as `!` (the property only says "raises"). -/
+namespace NV.Driver.C15
+open NV NV.Proto NV.Gen NV.Codec
+open NV.Driver.C08 (showR showNats showBytes parseDialect parseOptStr)
+
+structure Fam where
+  kind : Nat
+  ws : Nat
+  nw : Nat
+  sep : List Char
+  width : Nat
+
+def parseFam (tok : String) : Option Fam :=
+  match tok.splitOn ":" with
+  | ["4"] => some ⟨4, ipv4WordSize, ipv4NumWords, ipv4WordSep, V4.width⟩
+  | ["6"] => some ⟨6, ipv6WordSize, ipv6NumWords, ipv6WordSep, V6.width⟩
+  | ["48", d] => do let d ← parseDialect d; pure ⟨48, d.wordSize, d.numWords, d.sep, E48.width⟩
+  | ["64", d] => do let d ← parseDialect d; pure ⟨64, d.wordSize, d.numWords, d.sep, E64.width⟩
+  | ["G", ws, nw, sep] => do
+    let ws ← ws.toNat?; let nw ← nw.toNat?
+    let sep ← (hexBytes sep.toList).map utf8Decode
+    pure ⟨0, ws, nw, sep, ws * nw⟩
+  | _ => none
+
+def famWords (f : Fam) (v : Nat) : R (List Nat) :=
+  if f.kind = 4 then V4.intToWords v else intToWords v f.ws f.nw
+
+def famWordsToInt (f : Fam) (ws : List Nat) : R Nat :=
+  if f.kind = 4 then V4.wordsToInt ws else wordsToInt ws f.ws f.nw
+
+def famPacked (f : Fam) (v : Nat) : Option (R (List Nat)) :=
+  if f.kind = 4 then some (V4.intToPacked v) else if f.kind = 6 then some (V6.intToPacked v)
+  else if f.kind = 48 then some (E48.intToPacked v) else if f.kind = 64 then some (E64.intToPacked v) else none
+
+def famUnpack (f : Fam) (bs : List Nat) : Option (R Nat) :=
+  if f.kind = 4 then some (V4.packedToInt bs) else if f.kind = 6 then some (V6.packedToInt bs)
+  else if f.kind = 48 then some (E48.packedToInt bs) else if f.kind = 64 then some (E64.packedToInt bs) else none
+
+def famArpa (f : Fam) (v : Nat) : Option (R (List Char)) :=
+  if f.kind = 4 then some (V4.intToArpa v) else if f.kind = 6 then some (V6.intToArpa v) else none
+
+def optField {α} (f : α → String) : Option (R α) → String
+  | none => "-"
+  | some r => showR f r
+
+def parseNats (tok : String) : Option (List Nat) := do (← parseList tok).mapM (·.toNat?)
+
+def parseBytes (tok : String) : Option (List Nat) :=
+  if tok.startsWith "b:" then hexBytes (tok.drop 2).toString.toList else none
+
+def handle (op : String) (args : List String) : Option String :=
+  match op, args with
+  | "c15_enc", [fam, v] => do
+    let f ← parseFam fam; let v ← v.toNat?
+    pure (" ".intercalate [showR showNats (famWords f v), optField showBytes (famPacked f v),
+      showR showStr (intToBits v f.ws f.nw f.sep), showR showStr (intToBin v f.width),
+      optField showStr (famArpa f v)])
+  | "c15_obj", [fam, v, sep] => do
+    -- object-level accessors: IPAddress / EUI (EUI: module default dialect for words / bits())
+    let f ← parseFam fam; let v ← v.toNat?; let sep ← parseOptStr sep
+    if f.kind = 4 ∨ f.kind = 6 then
+      let bits := if f.kind = 4 then V4.intToBits v sep else V6.intToBits v sep
+      pure (" ".intercalate [showR showNats (famWords f v), optField showBytes (famPacked f v),
+        showR showBytes (toBytes (f.width / 8) v), showR showStr bits, showR showStr (intToBin v f.width),
+        optField showStr (famArpa f v)])
+    else
+      pure (" ".intercalate [showR showNats (Eui.words f.kind v), showR showBytes (Eui.packed f.kind v),
+        "-", showR showStr (Eui.bits f.kind v sep), showR showStr (intToBin v f.width), "-"])
+  | "c15_dec", [kind, fam, payload] => do
+    let f ← parseFam fam
+    match kind with
+    | "words" => do pure (showR toString (famWordsToInt f (← parseNats payload)))
+    | "packed" => do pure (optField toString (famUnpack f (← parseBytes payload)))
+    | "bits" => do pure (showR toString (bitsToInt (← parseStr payload) f.width f.sep))
+    | "bin" => do pure (showR toString (binToInt (← parseStr payload) f.width))
+    | _ => none
+  | "c15_valid", [kind, fam, payload] => do
+    let f ← parseFam fam
+    match kind with
+    | "words" => do pure (showBool (validWords (← parseNats payload) f.ws f.nw))
+    | "bits" => do pure (showBool (validBits (← parseStr payload) f.width f.sep))
+    | "bin" => do pure (showBool (validBin (← parseStr payload) f.width))
+    | _ => none
+  | "c15_b85e", [v] => do pure (showStr (ipv6ToBase85 (← v.toNat?)))
+  | "c15_b85d", [s] => do pure (showR toString (base85ToIpv6 (← parseStr s)))
+  | _, _ => none
 
 end NV.Driver.C15
